@@ -71,7 +71,7 @@ def c16_stage(tier, seed, env, log):
         race = bool(re.search(r"Data race detected|Undefined Behavior|error: unsupported operation|deadlock", out))
         oracle = bool(re.search(r"ORACLE-FAIL", out))
         ev["miri_hook_free"].append({"workers": k, "seeds": seeds_run, "executions_completed": done, "exit": rc,
-                                     "lengths": f"0..{maxlen}", "calls_per_execution": 2 * (maxlen + 1),
+                                     "lengths": f"0..{maxlen}", "calls_per_execution": 2 * (maxlen + 1) + 6, "concurrent_caller_threads": 2,
                                      "data_race_or_ub_reports": int(race), "oracle_failures": int(oracle)})
         if race:
             m = re.search(r"(error: .*(?:Data race|Undefined Behavior)[^\n]*)", out)
